@@ -71,6 +71,22 @@ Proof.
 Qed.
 End Generic.
 
+(* any scalar record: the stop structure of a finished run of DESolver.solve *)
+Lemma solveTo_stops (O : Ops) snap propose stop fuel t0 tf fmin fmax l :
+  solveTo O snap propose stop fuel t0 tf fmin fmax = Done l ->
+  match first_true stop (length l) with
+  | Some j => length l = S j /\ stop j = true /\ (forall i, (i < j)%nat -> stop i = false)
+  | None => ltb O (last (map fst l) t0) tf = false /\ (forall i, (i < length l)%nat -> stop i = false)
+  end.
+Proof.
+  unfold solveTo. intros H. pose proof (loop_stops O _ _ _ _ _ _ _ _ _ _ H) as Hs.
+  unfold first_true. destruct (first_true_from stop 0 (length l)) as [j|] eqn:E.
+  - destruct (first_true_from_spec stop _ _ _ E) as (H1 & H2 & H3). repeat split; auto; try lia.
+    intros i Hi. apply H3. lia.
+  - split; auto. intros i Hi. eapply first_true_from_none; eauto. lia.
+Qed.
+
+
 (* ========================================================================================== *)
 (* The clock on the reals                                                                      *)
 Section Reals.
